@@ -11,6 +11,7 @@ firmware layout.
 import CfVerif.Proofs.C08HL
 import CfVerif.Proofs.C08Full
 import CfVerif.Proofs.C08Wire
+import CfVerif.Proofs.C08Complete
 namespace CfVerif.C08
 open CfVerif
 
@@ -310,6 +311,57 @@ theorem emit_decodes (ver : Int) (c : Call) (ps : List Packet) (h : emit ver c =
   | lopoReboot id m => exact .inl ((sound_lopoReboot ver id m).1 ps h hpre)
   | lopoMode id m => exact .inl ((sound_lopoMode ver id m).1 ps h hpre)
 
+/-- **Unrepresentable arguments raise.**  If some argument cannot be represented in its field (a float beyond binary32,
+an int outside the field or thrust outside 0..65535, a float where an int is required, a fixed-point component outside
+int16, NaN/inf where an integer is needed, a base-station id outside 0..15, an LPP payload beyond 28 bytes) then nothing
+is handed to the link: the call raises (or, for `spiral` before version 8, returns without sending). -/
+theorem unrepresentable_raises (ver : Int) (c : Call) (h : expected? ver c = none) (hpre : c.Pre ver) :
+    (∃ e, emit ver c = .error e) ∨ emit ver c = .ok [] := by
+  cases he : emit ver c with
+  | error e => exact .inl ⟨e, rfl⟩
+  | ok ps =>
+    rcases emit_decodes ver c ps he hpre with ⟨p, _, _, hs, _⟩ | ⟨rfl, _⟩
+    · rw [h] at hs; cases hs
+    · exact .inr rfl
+
+/-- **Representable arguments are sent**, as exactly one packet (so the decode theorem is not vacuous: a call raises
+only when `expected?` is undefined). -/
+theorem emit_complete (ver : Int) (c : Call) (h : (expected? ver c).isSome) : ∃ p, emit ver c = .ok [p] := by
+  cases c with
+  | setpoint xm roll pitch mr mp yaw thrust => exact complete_setpoint ver xm roll pitch mr mp yaw thrust h
+  | notifyStop ms => exact complete_notifyStop ver ms h
+  | stopSetpoint => exact complete_stopSetpoint ver h
+  | velocityWorld a b c d => exact complete_velocityWorld ver a b c d h
+  | zdistance a b c d => exact complete_zdistance ver a b c d h
+  | hover a b c d => exact complete_hover ver a b c d h
+  | fullState pos vel acc quat rates => exact complete_fullState ver pos vel acc quat rates h
+  | position a b c d => exact complete_position ver a b c d h
+  | hlGroupMask gm => exact complete_hlGroupMask ver gm h
+  | hlTakeoff a b c d => exact complete_hlTakeoff ver a b c d h
+  | hlLand a b c d => exact complete_hlLand ver a b c d h
+  | hlStop gm => exact complete_hlStop ver gm h
+  | hlGoTo x y z yaw dur rel lin gm => exact complete_hlGoTo ver x y z yaw dur rel lin gm h
+  | hlSpiral a r0 rf asc dur sw cw gm =>
+    by_cases hv : ver < 8
+    · simp [expected?, hv] at h
+    · exact complete_hlSpiral ver hv a r0 rf asc dur sw cw gm h
+  | hlStartTraj a b c d e => exact complete_hlStartTraj ver a b c d e h
+  | hlDefineTraj a b c d => exact complete_hlDefineTraj ver a b c d h
+  | extpos x y z => exact (complete_extpos ver x y z).1 h
+  | extposWrap x y z => exact (complete_extpos ver x y z).2 h
+  | extpose x y z a b c d => exact (complete_extpose ver x y z a b c d).1 h
+  | extposeWrap x y z a b c d => exact (complete_extpose ver x y z a b c d).2 h
+  | shortLpp dest data => exact complete_shortLpp ver dest data h
+  | emergencyStop => exact (complete_emergency ver).1 h
+  | emergencyWatchdog => exact (complete_emergency ver).2 h
+  | lhPersist geo calib => exact complete_lhPersist ver geo calib h
+  | contWave e => exact (complete_platform ver e).1 h
+  | arming e => exact (complete_platform ver e).2.1 h
+  | crashRecovery => exact (complete_platform ver (k 0)).2.2 h
+  | lopoPosition id x y z => exact (complete_lopo ver id x y z id).1 h
+  | lopoReboot id m => exact (complete_lopo ver id m m m m).2.1 h
+  | lopoMode id m => exact (complete_lopo ver id m m m m).2.2 h
+
 /-- **Documented port and channel, struct size.**  Every packet handed to the link carries the documented port and
 channel of its command in the header byte, and its payload has exactly the size of the firmware's struct for that
 command (plus the type byte), which is at most 30. -/
@@ -395,13 +447,13 @@ theorem lh_persist_live_counterexample :
     maskSumLive [1, 1] = 4 ∧ (maskSumLive [1, 1]).testBit 1 = false ∧ (maskSumLive [1, 1]).testBit 2 = true ∧
     maskOr [1, 1] = 2 := by decide
 
-/-- the side condition on negated arguments: for the Python int 0, `-x` is again the int 0, so the wire carries
-+0.0 where the float 0.0 would give -0.0 (and the firmware's own sign flip of the legacy types then yields -0.0
-for the caller's 0): the same number, a different bit pattern -/
-theorem neg_int_zero (cv : Conv) : (Num.i 0 cv).neg = Num.i 0 cv ∧ Fw.fneg 0 = 0x80000000 := by
-  constructor
-  · simp [Num.neg]
-  · rfl
+/-- the one place where "bit for bit" needs a footnote (`pitchWire?`, `legacyYaw?` in Proofs/C08Spec): for the Python
+int 0 the code's `-x` is again the int 0, so the wire carries +0.0 where the float 0.0 would give -0.0 (and the firmware's
+own sign flip of the legacy types then yields -0.0 for the caller's 0): the same number, a different bit pattern -/
+theorem neg_int_zero (cv : Conv) : (Num.i 0 cv).neg = Num.i 0 cv ∧ Fw.fneg 0 = 0x80000000 ∧
+    pitchWire? (.i 0 (.bits 0)) = some 0 ∧ legacyYaw? (.i 0 (.bits 0)) = some 0x80000000 ∧
+    pitchWire? (.f 0 (.bits 0)) = some 0x80000000 ∧ legacyYaw? (.f 0 (.bits 0)) = some 0 := by
+  refine ⟨by simp [Num.neg], rfl, by decide, by decide, by decide, by decide⟩
 
 /-! ## Non-vacuity: concrete calls that are sent, with their bytes, and concrete calls that raise -/
 
@@ -410,8 +462,18 @@ example : emit 10 (.hover (.f 0 (.bits 0x3F000000)) (.f 0 (.bits 0x80000000)) (.
     .ok [⟨0x7C, [10, 0, 0, 0, 0x3F, 0, 0, 0, 0x80, 0, 0, 0x80, 0x3F, 0xCD, 0xCC, 0xCC, 0x3E]⟩] := by decide
 example : emit 8 (.hover (.f 0 (.bits 0x3F000000)) (.f 0 (.bits 0x80000000)) (.f 0 (.bits 0x3F800000)) (.f 0 (.bits 0x3ECCCCCD))) =
     .ok [⟨0x7C, [5, 0, 0, 0, 0x3F, 0, 0, 0, 0x80, 0, 0, 0x80, 0xBF, 0xCD, 0xCC, 0xCC, 0x3E]⟩] := by decide
-example : (Call.hover (.f 0 (.bits 0x3F000000)) (.f 0 (.bits 0x80000000)) (.f 0 (.bits 0x3F800000)) (.f 0 (.bits 0x3ECCCCCD))).Pre 8 := by
-  intro _; rfl
+example : (Call.hover (.f 0 (.bits 0x3F000000)) (.f 0 (.bits 0x80000000)) (.f 0 (.bits 0x3F800000)) (.f 0 (.bits 0x3ECCCCCD))).Pre 8 := trivial
+-- the side condition of the full-state decode theorem holds for the identity quaternion below
+example : (Call.fullState ⟨.i 0, .i 0, .i 0⟩ ⟨.i 0, .i 0, .i 0⟩ ⟨.i 0, .i 0, .i 0⟩
+    ⟨⟨0, 0x3FE0000000000000⟩, ⟨0, 0x3FE0000000000000⟩, ⟨0, 0x3FE0000000000000⟩, ⟨0x3FF0000000000000, 0x4080280000000000⟩⟩
+    ⟨.i 0, .i 0, .i 0⟩).Pre 10 := by
+  intro i hi hne m hm
+  have h3 : iLargest ⟨⟨0, 0x3FE0000000000000⟩, ⟨0, 0x3FE0000000000000⟩, ⟨0, 0x3FE0000000000000⟩, ⟨0x3FF0000000000000, 0x4080280000000000⟩⟩ = 3 := by
+    decide
+  rw [h3] at hne
+  have hcase : i = 0 ∨ i = 1 ∨ i = 2 := by omega
+  have h0 : f64ToInt 0x3FE0000000000000 = .ok 0 := by decide
+  rcases hcase with rfl | rfl | rfl <;> (simp only [QuatN.get, h0, Except.ok.injEq] at hm; omega)
 example : expected? 8 (.hover (.f 0 (.bits 0x3F000000)) (.f 0 (.bits 0x80000000)) (.f 0 (.bits 0x3F800000)) (.f 0 (.bits 0x3ECCCCCD))) =
     some (.hover 0x3F000000 0x80000000 0x3F800000 0x3ECCCCCD) := by decide
 -- send_setpoint(roll=1.0, pitch=2.0, yawrate=0.0, thrust=40000): pitch is sent negated
